@@ -22,7 +22,7 @@ FLAGS2 = ("FLAG_EQ_AND", "FLAG_EQ_CMP", "FLAG_SIGN_SUB", "FLAG_SIGN_ADD", "FLAG_
 FLAGS3 = ("FLAG_EQ_ADDWC", "FLAG_EQ_SUBWC", "FLAG_SIGN_ADDWC", "FLAG_SIGN_SUBWC", "FLAG_ADDWC_CF", "FLAG_ADDWC_OF",
           "FLAG_SUBWC_CF", "FLAG_SUBWC_OF")
 CC = {"CC_U<=": 2, "CC_U>=": 1, "CC_S<": 2, "CC_S>": 3, "CC_S<=": 3, "CC_S>=": 2, "CC_U>": 2, "CC_U<": 1, "CC_NEG": 1,
-      "CC_EQ": 1, "CC_NE": 1, "CC_POS": 1}
+      "CC_EQ": 1, "CC_NE": 1, "CC_POS": 1, "CC_sOVR": 1, "CC_sNOOVR": 1}
 BINARY = ("/", "%", "udiv", "umod", "sdiv", "smod", "**", "<<", ">>", "a>>", "<<<", ">>>")
 UNARY = ("-", "parity", "cntleadzeros", "cnttrailzeros")
 DIVS = ("/", "%", "udiv", "umod", "sdiv", "smod")
@@ -342,6 +342,8 @@ def sem_cc(A, op, args):
     if op == "CC_EQ": return args[0]
     if op == "CC_NE": return n_(args[0])
     if op == "CC_POS": return n_(args[0])
+    if op == "CC_sOVR": return args[0]              # ARM / AArch64 VS: the overflow flag
+    if op == "CC_sNOOVR": return n_(args[0])        # VC
     raise KeyError(op)
 
 
